@@ -42,10 +42,12 @@ async fn reader_checks<TC: Tcfg>(rd: &dyn Reader, m: &Model, pk: &[u8], labels: 
                 ensure!(leh.0 == e && leh.1 == root, "reader-lookup-epoch", "{what}: lookup names ({}, {})", leh.0, hex::encode(leh.1));
                 let r = verify_lookup::<TC>(pk, root, e, l, p);
                 ensure!(r.as_ref().ok() == Some(&exp), "reader-lookup-result", "{what}: lookup of {} verifies to {r:?}, the model at epoch {e} says {exp:?}", hex::encode(l));
-                let (hp, heh) = rd.r_history(&AkdLabel(l.clone()), HP::Complete.to()).await.map_err(|err| Fail { sig: "reader-history-err".into(), msg: format!("{what}: key_history of {} failed: {err:?}", hex::encode(l)) })?;
-                ensure!(heh.0 == e && heh.1 == root, "reader-history-epoch", "{what}: history names epoch {}", heh.0);
-                let hr = verify_history::<TC>(pk, root, e, l, hp, HP::Complete.to(), false);
-                ensure!(hr.as_ref().ok() == Some(&expected_history(m, l, e, HP::Complete)), "reader-history-result", "{what}: history of {} verifies to {hr:?}", hex::encode(l));
+                for hpar in [HP::Complete, HP::MostRecent(1), HP::MostRecent(2)] {
+                    let (hp, heh) = rd.r_history(&AkdLabel(l.clone()), hpar.to()).await.map_err(|err| Fail { sig: "reader-history-err".into(), msg: format!("{what}: key_history ({hpar:?}) of {} failed: {err:?}", hex::encode(l)) })?;
+                    ensure!(heh.0 == e && heh.1 == root, "reader-history-epoch", "{what}: history names epoch {}", heh.0);
+                    let hr = verify_history::<TC>(pk, root, e, l, hp, hpar.to(), false);
+                    ensure!(hr.as_ref().ok() == Some(&expected_history(m, l, e, hpar)), "reader-history-result", "{what}: history ({hpar:?}) of {} verifies to {hr:?}", hex::encode(l));
+                }
             }
             None => {
                 ensure!(rd.r_lookup(AkdLabel(l.clone())).await.is_err(), "reader-sees-unfinished-label", "{what}: label {} exists only in the unfinished epoch but a lookup proof was returned", hex::encode(l));
